@@ -464,3 +464,31 @@ def response_groups(resp):
     except Exception:
         return None
     return {e[0] for e in ev} | {x[0] for x in st}
+
+
+def response_sequence_fails(impl, any_master=False):
+    """in EVERY session state: when a well-formed request (not a CONFIRM) from the master is answered in the step in which
+    it arrives, the first solicited response of that step carries the request's sequence number and FIR - unless the
+    request is octet for octet the previous request (a retransmission, answered from memory).  Seeded change R7_w: a READ
+    with the same object headers but the NEXT sequence number was taken for a retransmission during the confirm wait."""
+    fails = []
+    prev = None
+    for op, t, lines in split_steps(impl):
+        if op[0] in ("disconnect", "bounce"):
+            prev = None
+        if op[0] != "rx":
+            continue
+        b = bytes.fromhex(op[3]) if op[3] != "-" else b""
+        dig = [l for l in lines if " > digest " in l]
+        ok = bool(dig) and all(x in dig[0].split() for x in ("hp=ok", "rv=ok", "obj=ok"))
+        if op[2] != "none" or not (any_master or int(op[1]) == MASTER) or len(b) < 2 or b[1] == 0 or not ok:
+            if op[2] == "none" and (any_master or int(op[1]) == MASTER) and len(b) >= 2 and b[1] != 0:
+                prev = None
+            continue
+        sol = [x for (_, _, x) in txs(lines) if len(x) >= 2 and x[1] == 129]
+        if sol and prev != b:
+            if (sol[0][0] & 15) != (b[0] & 15) or not (sol[0][0] & 0x80):
+                fails.append(("response-sequence", "request %s (sequence %d, not a retransmission) was answered with %s (sequence %d, FIR %d)"
+                              % (b.hex()[:16], b[0] & 15, sol[0].hex()[:12], sol[0][0] & 15, (sol[0][0] >> 7) & 1)))
+        prev = b
+    return fails
